@@ -143,15 +143,24 @@ def q (B : Nat) (r : FRepr) : Rat := r.toRat B
 def ctxMax (a b : Nat) : Nat := if a > b then a else b
 
 /-- check of the arithmetic contract for a model result; `x` exact value -/
+def contractWhy (B : Nat) (m : Mode) (p : Nat) (x : Rat) (xRepresentable : Bool) (r : Rounded FRepr) : Option String :=
+  if p = 0 then
+    (if r.2 = none ∧ q B r.1 = x then none else some "unlimited-precision-inexact")
+  else if !contractOk B m p x (q B r.1) r.2 then some "contract"
+  else if xRepresentable ∧ q B r.1 ≠ x then some "representable-not-exact"
+  else if r.1.digits B > p + 1 then some "more-than-p+1-digits"
+  else none
+
+/-- `fallback = true` (Context methods on operands longer than the working length, for which no
+    repair is proposed): when the mirrored result violates the contract, the correctly rounded
+    `p`-digit value is printed as the required result instead. -/
 def chkContract (asIs : Bool) (B : Nat) (m : Mode) (p : Nat) (x : Rat) (xRepresentable : Bool)
-    (r : Rounded FRepr) (s : String) : String :=
+    (r : Rounded FRepr) (s : String) (fallback : Bool := false) : String :=
   if asIs then s
-  else if p = 0 then
-    (if r.2 = none ∧ q B r.1 = x then s else mism s "unlimited-precision-inexact")
-  else if !contractOk B m p x (q B r.1) r.2 then mism s "contract"
-  else if xRepresentable ∧ q B r.1 ≠ x then mism s "representable-not-exact"
-  else if r.1.digits B > p + 1 then mism s "more-than-p+1-digits"
-  else s
+  else match contractWhy B m p x xRepresentable r with
+    | none => s
+    | some why =>
+      if fallback ∧ p ≠ 0 then ok (roundedStr (specRound B m p x) p) else mism s why
 
 def isRepresentableQ (B p : Nat) (x : Rat) : Bool :=
   -- x = n/d is representable in p digits iff d | B^k for some k and the normalised numerator fits;
@@ -179,7 +188,7 @@ def binArith (asIs : Bool) (ctxForm : Bool) (op : String) (a b : FArg) (p : Nat)
     let ex := q B x + (rs : Rat) * q B y
     let rep := representable B p (FRepr.new B (x.signif * ((B ^ (x.exp - min x.exp y.exp).toNat : Nat) : Int)
         + rs * y.signif * ((B ^ (y.exp - min x.exp y.exp).toNat : Nat) : Int)) (min x.exp y.exp))
-    pure (chkContract asIs B m p ex rep r (ok (roundedStr r p)))
+    pure (chkContract asIs B m p ex rep r (ok (roundedStr r p)) (ctxForm ∧ (x.digits B > p ∨ y.digits B > p)))
   | "mul" =>
     let r := ctxMul fixed B m coarseNone p x y
     let r2 := opMul B m coarseNone p x y
@@ -192,7 +201,8 @@ def binArith (asIs : Bool) (ctxForm : Bool) (op : String) (a b : FArg) (p : Nat)
     | .error k => pure (Dashu.Driver.panic k.name)
     | .ok r =>
       let ex := q B x / q B y
-      pure (chkContract asIs B m p ex (isRepresentableQ B p ex) r (ok (roundedStr r p)))
+      pure (chkContract asIs B m p ex (isRepresentableQ B p ex) r (ok (roundedStr r p))
+        (ctxForm ∧ x.digits B > y.digits B + p))
   | _ => none
 
 def unArith (asIs : Bool) (ctxForm : Bool) (op : String) (a : FArg) (p : Nat) : Option String := do
